@@ -791,7 +791,7 @@ func c33Execute(r *core.Run, c *core.Case, sc *c33Scenario, light bool) {
 				continue
 			}
 			x.mon.violate(p, "C33/liveness:poll-budget-exhausted:"+p.ctxClass(),
-				fmt.Sprintf("after faults and production stopped the pipeline polled ListLogs %d times (budget %d) but acknowledged only up to %d of %d logs since its last reset", p.pollsQ, p.budget, p.maxAck, p.total))
+				fmt.Sprintf("after faults and production stopped the pipeline polled ListLogs %d times (budget %d) and called Accept %d times (budget %d) but acknowledged only up to %d of %d logs since its last reset", p.pollsQ, p.budget, p.acceptsQ.Load(), p.budget+50, p.maxAck, p.total))
 		}
 		x.mon.mu.Unlock()
 	}
